@@ -503,7 +503,16 @@ fn constant<'tcx>(tcx: TyCtxt<'tcx>, owner: DefId, c: &ConstOperand<'tcx>) -> J 
         _ => {}
     }
     // scalar value if cheaply available
-    if let Some(si) = c.const_.try_to_scalar_int() {
+    // a named constant (`const N: usize = 3;`) is Unevaluated in MIR: evaluate it when that needs no generic parameter
+    let scalar = c.const_.try_to_scalar_int().or_else(|| match (c.const_, ty.kind()) {
+        (Const::Unevaluated(uv, _), ty::Int(_) | ty::Uint(_) | ty::Bool | ty::Char)
+            if uv.promoted.is_none() && uv.args.is_empty() =>
+        {
+            c.const_.try_eval_scalar_int(tcx, ty::TypingEnv::post_analysis(tcx, owner))
+        }
+        _ => None,
+    });
+    if let Some(si) = scalar {
         let bits = si.to_bits_unchecked();
         let v: i128 = match ty.kind() {
             ty::Int(_) => {
